@@ -15,7 +15,8 @@ package main
 // Monitor (the property as stated): a connection is answered with a handshake reply only if — by the
 // harness' own knowledge of keys, clock and store — its payload is one a client sealed to the server key,
 // unmodified, its timestamp is strictly inside the window, the UID is authorised and the method served
-// (or, for the admin API, UID = AdminUID and session id 0).
+// (or, for the admin API, UID = AdminUID and session id 0); a complete first packet that is not answered is relayed to the
+// redirect address — it is neither closed on nor left with no reply, no relay and no close.
 
 import (
 	"bytes"
@@ -320,6 +321,25 @@ func (e *c07env) conn(stream []byte, desc string) string {
 		}
 	case "return":
 		decision = "stall"
+		if tr != "" {
+			// dispatchConnection has returned on a COMPLETE first packet without a handshake reply, without relaying it
+			// ("every other first packet is handled as ordinary web traffic") and without even closing the connection
+			sig := "C07 connection-left-open"
+			d := map[string]any{"case": desc, "transport": tr, "first_packet": hx(pkt), "server_time_ns": e.cur.UnixNano(),
+				"server_private_key": hx(e.keys.priv[:]), "decision": "dispatchConnection returned: no reply, nothing relayed, connection not closed"}
+			if uid != nil {
+				// the payload opened under the server key: the packet got as far as the user lookup / GetSession
+				_, has, _, _, _ := server.VerifSession(e.sta, uid, sid)
+				if !has {
+					sig += " getsession-refused"
+				}
+				d["uid"], d["session_id"] = hx(uid), sid
+				if r, in := e.db[hx(uid)]; in {
+					d["user_record"] = fmt.Sprintf("up=%d down=%d expiry=%d (now %d) cap=%d", r.up, r.down, r.expiry, e.cur.Unix(), r.cap)
+				}
+			}
+			e.c.o.V(sig, d)
+		}
 	default:
 		decision = "unexpected:" + first
 	}
